@@ -266,6 +266,9 @@ func c12Hist64(ctx *run.Ctx, id run.CaseID, r *gen.Rng) {
 				okW := replay().ExecutePolyTree64(ct, fr, tw, &odw)
 				ctx.Eval(2)
 				keep(step, t.PolyPathBase)
+				if run.Digest(od) != run.Digest(odw) {
+					ctx.Fail(digest, "tree-open", "", fmt.Sprintf("%s: ExecutePolyTree64 on the used engine (pre-filled open argument) returns the open solution %v, a fresh engine %v", where, od, odw), h)
+				}
 				if ok != okW || !sameTree(treeSig(t.PolyPathBase), treeSig(tw.PolyPathBase)) {
 					ctx.Fail(digest, "tree", "", fmt.Sprintf("%s: ExecutePolyTree64 on the used engine differs from a fresh engine (%d vs %d nodes)", where, len(treeSig(t.PolyPathBase)), len(treeSig(tw.PolyPathBase))), h)
 				}
